@@ -7,7 +7,7 @@ use crate::stream::{ReadStream, WriteStream};
 
 /// Delay stream. Good for syncing up streams.
 #[derive(rustradio_macros::Block)]
-#[rustradio(crate)]
+#[rustradio(crate, noeof)]
 pub struct Delay<T: Copy> {
     delay: usize,
     current_delay: usize,
@@ -44,6 +44,17 @@ impl<T: Copy> Delay<T> {
             self.skip = (self.delay - delay) - cdskip;
         }
         self.delay = delay;
+    }
+}
+
+impl<T: Copy> crate::block::BlockEOF for Delay<T> {
+    /// Done when the input has ended *and* the whole delay has been emitted.
+    /// The derived `eof()` only looks at `src`: with the input already ended
+    /// and drained, a delay larger than the free output space was cut off at
+    /// whatever fitted.
+    fn eof(&mut self) -> bool {
+        use crate::stream::StreamWait;
+        self.src.eof() && (self.current_delay == 0 || self.dst.closed())
     }
 }
 
